@@ -456,7 +456,11 @@ func (app *App) buildTree() *App {
 		tsMap := make(map[int][]*Route)
 		for _, route := range app.stack[m] {
 			treePathHash := 0
-			if len(route.routeParser.segs) > 0 && len(route.routeParser.segs[0].Const) >= maxDetectionPaths {
+			// a first literal of exactly maxDetectionPaths bytes whose trailing slash is optional also matches a
+			// detection path of maxDetectionPaths-1 bytes, which selects bucket 0: such a route stays in bucket 0
+			// (bucket 0 is merged into every other bucket below)
+			if len(route.routeParser.segs) > 0 && len(route.routeParser.segs[0].Const) >= maxDetectionPaths &&
+				!(route.routeParser.segs[0].HasOptionalSlash && len(route.routeParser.segs[0].Const) == maxDetectionPaths) {
 				treePathHash = int(route.routeParser.segs[0].Const[0])<<16 |
 					int(route.routeParser.segs[0].Const[1])<<8 |
 					int(route.routeParser.segs[0].Const[2])
